@@ -231,8 +231,6 @@ Proof. intros [H1 [H2 [H3 H4]]] Hf. split; [exact H1|]. split; [exact H2|]. spli
   apply Forall2_upd; auto. intros x y Hx Hy Hxy. rewrite <- (getn_nth n cl x Hx), <- (sgetn_nth n sn y Hy). apply Hf.
   now rewrite (getn_nth n cl x Hx), (sgetn_nth n sn y Hy). Qed.
 
-Lemma upd_length f n : forall l, length (upd n f l) = length l.
-Proof. induction n as [|n IH]; intros [|x r]; cbn [upd length]; auto. Qed.
 Lemma step_nodes_length cl e : length (nodes (step cl e)) = length (nodes cl).
 Proof. destruct e as [op|n|n|n|n src k|n]; cbn [step].
   - destruct (accepts op); reflexivity.
@@ -241,20 +239,6 @@ Proof. destruct e as [op|n|n|n|n src k|n]; cbn [step].
   - cbn [nodes]. apply upd_length.
   - destruct (nth_error _ _); cbn [nodes]; auto using upd_length.
   - cbn [nodes]. apply upd_length. Qed.
-Lemma getn_upd_same lg f n l : getn n (mkcluster lg (upd n f l)) = match nth_error l n with Some x => f x | None => node0 end.
-Proof. unfold getn. cbn [nodes]. destruct (nth_error l n) as [x|] eqn:E.
-  - apply nth_error_nth. rewrite nth_error_upd, Nat.eqb_refl, E. reflexivity.
-  - apply nth_overflow. rewrite upd_length. now apply nth_error_None. Qed.
-Lemma getn_upd_fix lg f n l : f node0 = node0 -> getn n (mkcluster lg (upd n f l)) = f (nth n l node0).
-Proof. intros H0. rewrite getn_upd_same. destruct (nth_error l n) as [x|] eqn:E.
-  - now rewrite (nth_error_nth l n node0 E).
-  - rewrite nth_overflow by (now apply nth_error_None). now rewrite H0. Qed.
-Lemma getn_upd_other lg f n i l : n <> i -> getn i (mkcluster lg (upd n f l)) = nth i l node0.
-Proof. intros H. unfold getn. cbn [nodes]. destruct (nth_error l i) as [x|] eqn:E.
-  - rewrite (nth_error_nth l i node0 E). apply nth_error_nth. rewrite nth_error_upd.
-    destruct (Nat.eqb_spec n i); [contradiction|exact E].
-  - rewrite (nth_overflow l) by (now apply nth_error_None). apply nth_overflow. rewrite upd_length. now apply nth_error_None. Qed.
-
 Lemma Forall2_weaken {A B} (R R' : A -> B -> Prop) : (forall x y, R x y -> R' x y) -> forall l l', Forall2 R l l' -> Forall2 R' l l'.
 Proof. intros H l l' F. induction F; constructor; auto. Qed.
 
@@ -626,7 +610,7 @@ Proof. intros [I R] Hk Hw Em Es El.
     cbn [step log nodes]. eapply rec_persist; eauto.
   - (* ORestore *) split_model Em Eok. injection Es as <- <- <-. injection El as <- <- <- Hl.
     destruct (nth_error (snaps (getn (nn src) cl)) (nn kk)) as [s|] eqn:Esn; [|discriminate].
-    rewrite !andb_true_iff in Eok. destruct Eok as [E1 _]. apply Nat.eqb_eq in E1.
+    pose proof Eok as E1. apply Nat.eqb_eq in E1.
     pose proof (rec_snap_strict cl pend cnt late src kk s R Esn Hl) as Hs.
     destruct (sim_restore cl lg sn (nn n) (nn src) (nn kk) s I Esn Hs) as [I' A]. rewrite E1 in I', A.
     split; [intros _; now apply Nat.leb_le|]. right.
